@@ -68,6 +68,9 @@ pub enum Shape {
     Map(Box<Shape>, Box<Shape>),
     Struct { name: u8, set: u8, fields: Vec<Shape>, deny_unknown: bool, defaults: bool },
     Enum { name: u8, set: u8, variants: Vec<VShape> },
+    /// a hand-written visitor for the inner Struct / Map that returns Ok after `n`
+    /// entries without asking for the rest (serde does not require draining a MapAccess)
+    Partial(Box<Shape>, u8),
 }
 
 #[derive(Clone, Debug, Serialize, Deserialize, Hash, PartialEq, Eq)]
@@ -82,7 +85,7 @@ impl Shape {
     fn has_borrowed(&self) -> bool {
         match self {
             Shape::Str | Shape::Bytes => true,
-            Shape::Opt(s) | Shape::Newtype(_, s) | Shape::Seq(s) => s.has_borrowed(),
+            Shape::Opt(s) | Shape::Newtype(_, s) | Shape::Seq(s) | Shape::Partial(s, _) => s.has_borrowed(),
             Shape::Tuple(v) | Shape::TupleStruct(_, v) => v.iter().any(|s| s.has_borrowed()),
             Shape::Map(k, v) => k.has_borrowed() || v.has_borrowed(),
             Shape::Struct { fields, .. } => fields.iter().any(|s| s.has_borrowed()),
@@ -119,13 +122,14 @@ impl Shape {
             Shape::Map(..) => "map",
             Shape::Struct { .. } => "struct",
             Shape::Enum { .. } => "enum",
+            Shape::Partial(..) => "visitor_that_stops_early",
         }
     }
     /// every node kind of the tree, for the reach counters
     fn kinds(&self, out: &mut Vec<&'static str>) {
         out.push(self.kind());
         match self {
-            Shape::Opt(s) | Shape::Newtype(_, s) | Shape::Seq(s) => s.kinds(out),
+            Shape::Opt(s) | Shape::Newtype(_, s) | Shape::Seq(s) | Shape::Partial(s, _) => s.kinds(out),
             Shape::Tuple(v) | Shape::TupleStruct(_, v) => v.iter().for_each(|s| s.kinds(out)),
             Shape::Map(k, v) => {
                 k.kinds(out);
@@ -229,6 +233,7 @@ const PROBE_NAMES: &[&str] = &[
     "visit_map", "visit_seq", "visit_enum", "visit_some", "visit_none", "visit_unit", "visit_newtype", "visit_str", "visit_bytes",
     "visit_bool", "visit_num", "struct_via_seq", "unknown_field_ignored", "duplicate_field", "missing_field", "unknown_variant",
     "unit_variant", "newtype_variant", "tuple_variant", "struct_variant", "field_by_bytes", "seq_nonempty", "map_nonempty", "key_nonstring",
+    "stopped_early",
 ];
 
 fn probe(name: &'static str) {
@@ -307,10 +312,17 @@ impl<'de, 'a> DeserializeSeed<'de> for Sh<'a> {
             Shape::Seq(s) => d.deserialize_seq(SeqV(s)),
             Shape::Tuple(v) => d.deserialize_tuple(v.len(), TupleV(v)),
             Shape::TupleStruct(n, v) => d.deserialize_tuple_struct(sname(*n), v.len(), TupleV(v)),
-            Shape::Map(k, v) => d.deserialize_map(MapV(k, v)),
+            Shape::Map(k, v) => d.deserialize_map(MapV(k, v, None)),
             Shape::Struct { name, set, fields, deny_unknown, defaults } => {
-                d.deserialize_struct(sname(*name), fset(*set), StructV { names: fset(*set), fields, deny: *deny_unknown, defaults: *defaults })
+                d.deserialize_struct(sname(*name), fset(*set), StructV { names: fset(*set), fields, deny: *deny_unknown, defaults: *defaults, limit: None })
             }
+            Shape::Partial(inner, n) => match &**inner {
+                Shape::Struct { name, set, fields, deny_unknown, .. } => {
+                    d.deserialize_struct(sname(*name), fset(*set), StructV { names: fset(*set), fields, deny: *deny_unknown, defaults: true, limit: Some(*n) })
+                }
+                Shape::Map(k, v) => d.deserialize_map(MapV(k, v, Some(*n))),
+                other => Sh(other).deserialize(d),
+            },
             Shape::Enum { name, set, variants } => d.deserialize_enum(sname(*name), vset(*set), EnumV { names: vset(*set), variants }),
         }
     }
@@ -535,7 +547,7 @@ impl<'de, 'a> Visitor<'de> for TupleV<'a> {
     }
 }
 
-struct MapV<'a>(&'a Shape, &'a Shape);
+struct MapV<'a>(&'a Shape, &'a Shape, Option<u8>);
 impl<'de, 'a> Visitor<'de> for MapV<'a> {
     type Value = ();
     fn expecting(&self, f: &mut fmt::Formatter) -> fmt::Result {
@@ -548,9 +560,19 @@ impl<'de, 'a> Visitor<'de> for MapV<'a> {
         if !matches!(self.0, Shape::String | Shape::Str | Shape::Any | Shape::Ident) {
             probe("key_nonstring");
         }
-        while m.next_key_seed(Sh(self.0))?.is_some() {
+        let mut n = 0u8;
+        loop {
+            if self.2 == Some(n) {
+                probe("stopped_early");
+                tr("…}".into());
+                return Ok(());
+            }
+            if m.next_key_seed(Sh(self.0))?.is_none() {
+                break;
+            }
             probe("map_nonempty");
             m.next_value_seed(Sh(self.1))?;
+            n = n.saturating_add(1);
         }
         tr("}".into());
         Ok(())
@@ -601,6 +623,8 @@ struct StructV<'a> {
     fields: &'a [Shape],
     deny: bool,
     defaults: bool,
+    /// hand-written visitor: return Ok after this many entries
+    limit: Option<u8>,
 }
 impl<'a> StructV<'a> {
     fn shape(&self, i: usize) -> &'a Shape {
@@ -628,7 +652,18 @@ impl<'de, 'a> Visitor<'de> for StructV<'a> {
         probe("visit_map");
         tr("struct{".into());
         let mut seen = vec![false; self.names.len()];
-        while let Some(k) = m.next_key_seed(FieldSeed { names: self.names, deny: self.deny })? {
+        let mut n = 0u8;
+        loop {
+            if self.limit == Some(n) {
+                probe("stopped_early");
+                tr("…}".into());
+                return Ok(());
+            }
+            n = n.saturating_add(1);
+            let k = match m.next_key_seed(FieldSeed { names: self.names, deny: self.deny })? {
+                Some(k) => k,
+                None => break,
+            };
             match k {
                 Some(i) => {
                     if seen[i] {
@@ -725,7 +760,7 @@ impl<'de, 'a> Visitor<'de> for EnumV<'a> {
             }
             VShape::Struct { set, fields } => {
                 probe("struct_variant");
-                va.struct_variant(fset(*set), StructV { names: fset(*set), fields, deny: false, defaults: true })
+                va.struct_variant(fset(*set), StructV { names: fset(*set), fields, deny: false, defaults: true, limit: None })
             }
         }
     }
@@ -842,9 +877,35 @@ fn gen_struct(rng: &mut Rng, depth: usize) -> Shape {
     Shape::Struct { name: rng.below(8) as u8, set, fields: gen_fields(rng, set, depth), deny_unknown: rng.chance(1, 6), defaults: rng.chance(3, 4) }
 }
 
+/// "list-heavy" types: only structs over plain element names, lists and strings, nested up
+/// to list -> struct -> struct -> list -> struct; the overlapped-lists look-ahead and replay
+/// machinery is only exercised in depth by such types
+fn gen_struct_lists(rng: &mut Rng, depth: usize) -> Shape {
+    let plain: Vec<u8> = (0..N_FSETS as u8)
+        .filter(|&i| fset(i).len() >= 2 && fset(i).iter().all(|n| !n.starts_with('@') && !n.starts_with('$') && *n != "xsi:nil"))
+        .collect();
+    let set = *rng.pick(&plain);
+    let fields = fset(set)
+        .iter()
+        .map(|_| match rng.below(10) {
+            0..=3 => Shape::String,
+            4..=5 => Shape::Seq(Box::new(Shape::String)),
+            6..=7 if depth < 4 => Shape::Seq(Box::new(gen_struct_lists(rng, depth + 1))),
+            8..=9 if depth < 4 => gen_struct_lists(rng, depth + 1),
+            _ => Shape::String,
+        })
+        .collect();
+    Shape::Struct { name: rng.below(8) as u8, set, fields, deny_unknown: false, defaults: true }
+}
+
 pub fn gen_shape(rng: &mut Rng, depth: usize) -> Shape {
-    if depth >= 3 || rng.chance(2, 5) {
+    // containers get rarer with depth; list -> struct -> struct -> list chains (depth 5) occur
+    if depth >= 6 || rng.chance(2 + depth, 8) {
         return gen_leaf(rng);
+    }
+    if PARTIAL_VISITORS && rng.chance(1, 16) {
+        let inner = if rng.chance(2, 3) { gen_struct(rng, depth) } else { Shape::Map(Box::new(Shape::String), Box::new(gen_shape(rng, depth + 1))) };
+        return Shape::Partial(Box::new(inner), rng.below(3) as u8);
     }
     match rng.below(16) {
         0..=4 => gen_struct(rng, depth),
@@ -860,6 +921,9 @@ pub fn gen_shape(rng: &mut Rng, depth: usize) -> Shape {
         _ => Shape::TupleStruct(rng.below(8) as u8, (0..rng.range(1, 3)).map(|_| gen_shape(rng, depth + 1)).collect()),
     }
 }
+
+/// generate hand-written visitors that stop before a map is drained?
+const PARTIAL_VISITORS: bool = true;
 
 const WORDS: &[&str] = &["x", "abc", "a b", " x ", "&amp;", "&lt;b&gt;", "\u{e9}", "&#65;", "true", "12", "", "a", "item", "$text"];
 const INTS: &[&str] = &["0", "1", "42", "-7", "255", "256", "-129", "65536", "4294967296", "18446744073709551616", "+5", "1e3", " 12", "0x10", "-0"];
@@ -883,7 +947,7 @@ fn lit(rng: &mut Rng, s: &Shape) -> String {
         Shape::F32 | Shape::F64 => (*rng.pick(FLOATS)).to_string(),
         Shape::Char => (*rng.pick(&["x", "\u{e9}", "&lt;", "ab", " "])).to_string(),
         Shape::Unit | Shape::UnitStruct(_) => String::new(),
-        Shape::Opt(s) | Shape::Newtype(_, s) => lit(rng, s),
+        Shape::Opt(s) | Shape::Newtype(_, s) | Shape::Partial(s, _) => lit(rng, s),
         Shape::Enum { set, .. } => (*rng.pick(vset(*set))).to_string(),
         _ => (*rng.pick(WORDS)).to_string(),
     }
@@ -930,6 +994,8 @@ struct DocGen<'r> {
     rng: &'r mut Rng,
     out: String,
     budget: usize,
+    /// probability (of 6) that the children of a struct element are shuffled
+    shuffle_of_6: usize,
 }
 
 impl<'r> DocGen<'r> {
@@ -940,6 +1006,13 @@ impl<'r> DocGen<'r> {
             let q = if self.rng.chance(1, 5) && !v.contains('\'') { '\'' } else { '"' };
             self.out.push_str(&format!(" {}={}{}{}", k, q, attr_escape(v), q));
         }
+    }
+
+    /// what `f` appends, as a string of its own
+    fn render(&mut self, f: impl FnOnce(&mut Self)) -> String {
+        let saved = std::mem::take(&mut self.out);
+        f(self);
+        std::mem::replace(&mut self.out, saved)
     }
 
     /// zero or more elements named `tag` that stand for a value of shape `s`
@@ -956,7 +1029,7 @@ impl<'r> DocGen<'r> {
                 7 => self.out.push_str(&format!("<{} xmlns:xsi=\"http://www.w3.org/2001/XMLSchema-instance\" xsi:nil=\"true\">x</{}>", tag, tag)),
                 _ => self.elem(inner, tag, depth + 1),
             },
-            Shape::Newtype(_, inner) => self.elem(inner, tag, depth + 1),
+            Shape::Newtype(_, inner) | Shape::Partial(inner, _) => self.elem(inner, tag, depth + 1),
             Shape::Seq(inner) => {
                 let n = self.rng.below(4);
                 for _ in 0..n {
@@ -1056,6 +1129,8 @@ impl<'r> DocGen<'r> {
             let j = self.rng.below(i + 1);
             order.swap(i, j);
         }
+        // every child is rendered as its own piece; the items of a list are separate pieces
+        let mut pieces: Vec<String> = vec![];
         for i in order {
             if self.rng.chance(1, 8) {
                 continue;
@@ -1063,19 +1138,42 @@ impl<'r> DocGen<'r> {
             match names[i] {
                 "$text" => {
                     let t = simple_text(self.rng, &fields[i]);
-                    let t = text_piece(self.rng, &t);
-                    self.out.push_str(&t)
+                    pieces.push(text_piece(self.rng, &t));
                 }
-                "$value" => self.value(&fields[i], depth + 1),
-                n => self.elem(&fields[i], n, depth + 1),
+                "$value" => {
+                    let p = self.render(|g| g.value(&fields[i], depth + 1));
+                    pieces.push(p);
+                }
+                n => match &fields[i] {
+                    Shape::Seq(inner) => {
+                        for _ in 0..self.rng.below(4) {
+                            let p = self.render(|g| g.elem(inner, n, depth + 1));
+                            pieces.push(p);
+                        }
+                    }
+                    other => {
+                        let p = self.render(|g| g.elem(other, n, depth + 1));
+                        pieces.push(p);
+                    }
+                },
             }
             if self.rng.chance(1, 10) {
                 let other = any_name(self.rng);
-                self.out.push_str(&format!("<{}>u</{}>", other, other));
+                pieces.push(format!("<{}>u</{}>", other, other));
             }
             if self.rng.chance(1, 12) {
-                self.out.push_str(*self.rng.pick(&["stray", " ", "<!--c-->", "<?pi?>", "<![CDATA[cd]]>"]));
+                pieces.push((*self.rng.pick(&["stray", " ", "<!--c-->", "<?pi?>", "<![CDATA[cd]]>"])).to_string());
             }
+        }
+        if self.rng.chance(self.shuffle_of_6, 6) {
+            // overlapped lists: the items of one field are interleaved with the other fields
+            for i in (1..pieces.len()).rev() {
+                let j = self.rng.below(i + 1);
+                pieces.swap(i, j);
+            }
+        }
+        for p in pieces {
+            self.out.push_str(&p);
         }
         self.out.push_str(&format!("</{}>", tag));
     }
@@ -1093,7 +1191,7 @@ impl<'r> DocGen<'r> {
                     self.value(inner, depth + 1);
                 }
             }
-            Shape::Opt(inner) | Shape::Newtype(_, inner) => {
+            Shape::Opt(inner) | Shape::Newtype(_, inner) | Shape::Partial(inner, _) => {
                 if !self.rng.chance(1, 4) {
                     self.value(inner, depth + 1)
                 }
@@ -1160,8 +1258,8 @@ impl<'r> DocGen<'r> {
     }
 }
 
-pub fn gen_doc_for(rng: &mut Rng, shape: &Shape) -> String {
-    let mut g = DocGen { rng, out: String::new(), budget: 60 };
+pub fn gen_doc_for(rng: &mut Rng, shape: &Shape, shuffle_of_6: usize) -> String {
+    let mut g = DocGen { rng, out: String::new(), budget: 90, shuffle_of_6 };
     if g.rng.chance(1, 6) {
         g.out.push_str(*g.rng.pick(&["<?xml version=\"1.0\"?>", "<?xml version=\"1.0\" encoding=\"UTF-8\"?>\n", "<!DOCTYPE r>", "<!-- c -->", "\n", "\u{feff}"]));
     }
@@ -1226,22 +1324,29 @@ impl Scenario for DynScen {
     }
     fn gen(&self, rng: &mut Rng, base_seed: u64, run: u64, _tier: Tier) -> Plan {
         let mut p = Plan::new("dyn", base_seed, run);
+        let mut shuffle = 2;
+        let mut untouched = 5;
         let shape = match rng.below(10) {
-            0..=4 => gen_struct(rng, 0),
+            0..=3 => gen_struct(rng, 0),
+            4 => {
+                shuffle = 4;
+                untouched = 8;
+                gen_struct_lists(rng, 0)
+            }
             5 => gen_enum(rng, 0),
             _ => gen_shape(rng, 0),
         };
         // now and then the document is made for another shape: "valid XML, wrong shape"
         let mut doc = if rng.chance(1, 10) {
             let other = gen_shape(rng, 0);
-            gen_doc_for(rng, &other)
+            gen_doc_for(rng, &other, shuffle)
         } else {
-            gen_doc_for(rng, &shape)
+            gen_doc_for(rng, &shape, shuffle)
         };
         p.note = String::from("document made for the shape");
         match rng.below(10) {
-            0..=4 => {}
-            5..=7 => {
+            n if n < untouched => {}
+            0..=7 => {
                 let n = rng.range(1, 3);
                 let note = mutate_doc(rng, &mut doc, n);
                 p.note.push_str(&format!("; mutated: {}", note));
@@ -1448,7 +1553,7 @@ fn smaller(s: &Shape, out: &mut Vec<Shape>) {
         }
     };
     match s {
-        Shape::Opt(i) | Shape::Newtype(_, i) | Shape::Seq(i) => {
+        Shape::Opt(i) | Shape::Newtype(_, i) | Shape::Seq(i) | Shape::Partial(i, _) => {
             out.push((**i).clone());
             let mut sub = vec![];
             smaller(i, &mut sub);
@@ -1456,6 +1561,7 @@ fn smaller(s: &Shape, out: &mut Vec<Shape>) {
                 out.push(match s {
                     Shape::Opt(_) => Shape::Opt(Box::new(a)),
                     Shape::Newtype(n, _) => Shape::Newtype(*n, Box::new(a)),
+                    Shape::Partial(_, n) => Shape::Partial(Box::new(a), *n),
                     _ => Shape::Seq(Box::new(a)),
                 });
             }
@@ -1540,6 +1646,7 @@ fn smaller(s: &Shape, out: &mut Vec<Shape>) {
 pub fn describe(s: &Shape) -> String {
     match s {
         Shape::Opt(i) => format!("Option<{}>", describe(i)),
+        Shape::Partial(i, n) => format!("[hand-written visitor returning Ok after {} entries of] {}", n, describe(i)),
         Shape::Newtype(n, i) => format!("struct {}({})", sname(*n), describe(i)),
         Shape::Seq(i) => format!("Vec<{}>", describe(i)),
         Shape::Tuple(v) => format!("({})", v.iter().map(describe).collect::<Vec<_>>().join(", ")),
